@@ -40,6 +40,23 @@ var importMap = map[string][2]string{ // original path -> shim package, default 
 	"crypto/rand": {"vrand", "rand"},
 }
 
+// constOverride shrinks lock-striping tables in the verification build only (they dominate the
+// cost of centrifuge.New; striping width is not observable apart from contention). Listed in
+// every evidence file under assumptions.
+var constOverride = map[string]string{
+	"numSubLocks":            "64",
+	"numMediumLocks":         "64",
+	"numPubLocks":            "64",
+	"numSubDissolverWorkers": "4",
+}
+
+// literalOverride: inside the named function, comparison literals are replaced (verification
+// build only). newMetricsRegistry pre-formats 5001 code strings per Node; getCodeLabel falls
+// back to strconv for codes outside the table, so the table size is not observable.
+var literalOverride = map[string]map[string]string{
+	"newMetricsRegistry": {"5000": "16"},
+}
+
 func must(err error) {
 	if err != nil {
 		fmt.Fprintln(os.Stderr, "vrewrite:", err)
@@ -269,6 +286,19 @@ func (rw *rewriter) rewrite() {
 		case *ast.FuncDecl:
 			// drop doc comments (already removed from f.Comments)
 			n.Doc = nil
+			if lo, ok := literalOverride[n.Name.Name]; ok && rw.pkg.PkgPath == modPath && n.Body != nil {
+				ast.Inspect(n.Body, func(x ast.Node) bool {
+					if be, ok := x.(*ast.BinaryExpr); ok {
+						if bl, ok := be.Y.(*ast.BasicLit); ok {
+							if nv, ok := lo[bl.Value]; ok {
+								be.Y = &ast.BasicLit{Kind: token.INT, Value: nv}
+								rw.stats["literal:"+n.Name.Name]++
+							}
+						}
+					}
+					return true
+				})
+			}
 		case *ast.GenDecl:
 			if n.Doc != nil {
 				n.Doc = filterDoc(n.Doc)
@@ -276,6 +306,16 @@ func (rw *rewriter) rewrite() {
 		case *ast.ValueSpec:
 			n.Doc = filterDoc(n.Doc)
 			n.Comment = nil
+			if rw.pkg.PkgPath == modPath && len(n.Names) == 1 && len(n.Values) == 1 {
+				if v, ok := constOverride[n.Names[0].Name]; ok {
+					if _, isConst := rw.pkg.TypesInfo.Defs[n.Names[0]].(*types.Const); isConst {
+						if _, isLit := n.Values[0].(*ast.BasicLit); isLit {
+							n.Values[0] = &ast.BasicLit{Kind: token.INT, Value: v}
+							rw.stats["const:"+n.Names[0].Name]++
+						}
+					}
+				}
+			}
 		case *ast.TypeSpec:
 			n.Doc = nil
 			n.Comment = nil
